@@ -179,3 +179,24 @@ func init() {
 		return hit
 	})
 }
+
+func init() {
+	// KF-dist-samelabelset: a distributed query evaluates name-dropping functions (and
+	// aggregations over them) per partition; series that differ only in the metric name
+	// and live on different remote engines never meet, so the distributed engine returns
+	// a value where a single engine over the union fails with the same-labelset error.
+	// Lazy trigger: the reference engine over the union fails the query with that error.
+	kf.RegisterLazy("union-same-labelset-error", func(c *core.Case, expr parser.Expr) bool {
+		if expr == nil || c.Query == "" {
+			return false
+		}
+		st := memstore.New(c.Series)
+		s := st.Session()
+		s.Shuffle = c.Shuffle
+		r, err := Run(context.Background(), NewRef(c.Lookback), s, QueryOpts(c.QLookback), c.Query, c.Start, c.End, c.Step)
+		if err != nil || r.Err == nil {
+			return false
+		}
+		return strings.Contains(r.Err.Error(), "vector cannot contain metrics with the same labelset")
+	})
+}
